@@ -475,6 +475,14 @@ class PVLEncoder(object):
         """Returns a ``str`` formatted as a PVL Time based
         on the *value* object according to the rules of this encoder.
         """
+        if value.utcoffset():
+            # PVL Date/Time Values are all in UTC, and there is no
+            # syntax for a time zone offset.
+            raise ValueError(
+                "PVL cannot represent a time zone offset, and this time "
+                f"has one: {value}"
+            )
+
         s = f"{value:%H:%M}"
 
         if value.microsecond:
@@ -828,7 +836,7 @@ class ODLEncoder(PVLEncoder):
                 f"have a timezone offset: {value}"
             )
 
-        t = super().encode_time(value)
+        t = super().encode_time(value.replace(tzinfo=None))
 
         if value.utcoffset() == datetime.timedelta():
             return t + "Z"
